@@ -1762,7 +1762,7 @@ static WBXMLError parse_entity(WBXMLParser *parser, WBXMLBuffer **result)
         WB_UTINY entity[7] = {0, 0, 0, 0, 0, 0, 0};
 
         int index = 5;
-        while (code >= 0x40)
+        while (code >= (WB_ULONG) (0x40 >> (5 - index)))
         {
             entity[index] = 0x80 | (code & 0x3F);
             code >>= 6; index--;
